@@ -49,7 +49,7 @@ def replay(pid, hname, params, values, opts=None):
     """Run the harness on floats against the unstubbed code. Returns dict(failed=[...], error=..., invalid=bool)."""
     mod = prop_module(pid)
     h = mod.HARNESSES[hname]
-    fv = {k: str_to_float(v) for k, v in values.items()}
+    fv = {k: (v if k.startswith('xh_') else str_to_float(v)) for k, v in values.items()}     # xh_*: CrossHair counterexamples (call strings)
     cx = Ctx('conc', values=fv, opts=opts)
     Ctx.cur = cx
     out = dict(failed=[], error=None, invalid=False)
